@@ -20,6 +20,11 @@ METHODS = ['fixed-point', 'newton', 'linear']
 
 def gen_shape(rng, dom_sizes=(1, 2, 3, 2, 0)):
     wr = lambda r: r.choice(semgen.REAL_W)
+    if rng.random() < 0.3:
+        # tiny weights (powers of two, so every value stays exactly representable): sum-products far below the default tolerance 1e-5
+        # of the iterative solvers — a non-recursive nonterminal is computed in ONE step and must not be cut off by a stopping test
+        tiny = [2.0 ** -12, 2.0 ** -14, 2.0 ** -10, 1.0, 0.5, 2.0 ** -16]
+        wr = lambda r: r.choice(tiny)
     shape = gen.random_shape(rng, recursive=False, n_nts=(1, 4), rules_per_nt=(0, 2), n_nodes=(0, 2), n_edges=(0, 3), max_arity=2,
                              start_arity=(0, 2), dom_sizes=dom_sizes, p_isolated=0.3, p_repeat_att=0.2, p_ruleless=0.15,
                              p_rep_ext=0.05, weights=wr, max_cells=600)
